@@ -68,7 +68,8 @@ theorem classified_of_inv {j : Job} (hi : Inv j) (hp : j.pc = .gathered) :
     refine ⟨fun hc => ?_, fun hs hb => ?_, fun hr hb => ?_⟩
     · have hfired : j.fired = true := by rw [hf, hret]; exact runFn_late c j.spec j.start hc
       refine ⟨hcanc hfired, fun hm => ?_⟩
-      have hm' : 0 < j.spec.m := by simpa using hm
+      have hm' : 0 < j.spec.m := by have : 1 ≤ j.spec.m := by simpa using hm
+                                    omega
       rw [hsaw, (runFn_spec (some c) j.spec j.start).2.2.2.2 hm']
       exact runFn_late c j.spec j.start hc
     · obtain ⟨r1, r2, _⟩ := runFn_after c j.spec j.start (Nat.le_of_lt hs) hb
